@@ -11,6 +11,17 @@ Mirrors
 Characters are Unicode code points (`Nat`).  `int(str)` is modelled on ASCII text (Python also accepts
 Unicode decimal digits / Unicode white space; the harness keeps those in an oracle-only stream).
 -/
+namespace ForML
+
+/-- results are compared in kernel-checked examples -/
+instance instDecidableEqExcept [DecidableEq ε] [DecidableEq α] : DecidableEq (Except ε α)
+  | .ok a, .ok b => if h : a = b then isTrue (h ▸ rfl) else isFalse (by intro e; cases e; exact h rfl)
+  | .error a, .error b => if h : a = b then isTrue (h ▸ rfl) else isFalse (by intro e; cases e; exact h rfl)
+  | .ok _, .error _ => isFalse (by intro e; cases e)
+  | .error _, .ok _ => isFalse (by intro e; cases e)
+
+end ForML
+
 namespace ForML.Keys
 
 /-! ### comparators (Python tuple / list comparison) -/
